@@ -76,6 +76,7 @@ def arity_obligations(run, wsdir_for_mir=None):
     run.functions.append("steel_vm::register_fn: %d wrapper closures `register_fn::{closure#0}` / `register_owned_fn` / `register_fn_borrowed` (MIR)" % len(wrappers))
     run.samples.append({"engine": "mir-smt", "wrappers": len(wrappers), "query": "exists len1 != len2 both reaching <FN as Fn<..>>::call", "unsat": n_unsat})
     common = dict(engine="mir-smt/z3", wall_s=time.time() - t0, solver_s=round(solver_s, 2), solver_checks=len(wrappers))
+    mapping_obligation(run, wrappers, wsdir, root, env)
     if errs:
         run.ob("arity:wrappers", "inconclusive", reason="; ".join(errs[:3]), **common)
         return
@@ -107,6 +108,58 @@ def arity_obligations(run, wsdir_for_mir=None):
     run.ob("arity:wrappers", "fail", note=m.group(1)[:200], **common)
 
 
+def mapping_obligation(run, wrappers, wsdir, root, env):
+    """E3 (second query): every parameter of the host function is computed from the argument written at
+    the same position (the conversion of args[k] feeds parameter k, for every wrapper)."""
+    import os, json, shutil, subprocess, re, time
+    import ws, p_arity
+    t0 = time.time()
+    bad, errs, n_unsat, solver_s = [], [], 0, 0.0
+    for key, f, calls in wrappers:
+        try:
+            r = p_arity.check_mapping(key, f, calls)
+        except Exception as ex:
+            errs.append("%s: %s" % (key[-60:], str(ex)[:120]))
+            continue
+        solver_s += r["dt"]
+        if r["res"] == "unsat":
+            n_unsat += 1
+        elif r["res"] == "sat":
+            bad.append(r)
+        else:
+            errs.append("%s: solver %s" % (key[-60:], r["res"]))
+    run.samples.append({"engine": "mir-smt", "wrappers": len(wrappers), "query": "exists parameter position k of the host call whose value is not computed from args[k]", "unsat": n_unsat})
+    common = dict(engine="mir-smt/z3", wall_s=time.time() - t0, solver_s=round(solver_s, 2), solver_checks=len(wrappers))
+    oid = "arity:argument-mapping"
+    if errs:
+        run.ob(oid, "inconclusive", reason="; ".join(errs[:3]), **common)
+        return
+    if not bad:
+        run.ob(oid, "pass", nonvacuous=True, note="%d wrappers: parameter k of the host call is the conversion of args[k], for every k" % n_unsat, **common)
+        return
+    r = bad[0]
+    try:
+        shutil.copy(os.path.join(ws.VERIF, "harness", "arity_replay.rs"), os.path.join(wsdir, "crates", "steel-core", "tests", "verif_arity_replay.rs"))
+        p = subprocess.run(["cargo", "test", "--offline", "-p", "steel-core", "--no-default-features", "--features", ws.FEATURES,
+                            "--test", "verif_arity_replay", "--target-dir", os.path.join(root, "tn"), "--", "mapping_replay", "--exact", "--nocapture"],
+                           cwd=wsdir, env=dict(env, VERIF_MAP_N=str(r["n"])), capture_output=True, text=True, timeout=1800)
+        m = re.search(r"OBSERVED: (.*)", p.stdout + p.stderr)
+    except Exception as ex:
+        run.ob(oid, "inconclusive", reason="replay failed: %s" % str(ex)[-300:], **common)
+        return
+    what = "%d wrapper(s), e.g. %s: parameter %d of a %d-parameter host function is computed from argument(s) %s" % (len(bad), r["name"][-70:], r["k"], r["n"], r["src"][r["k"]])
+    if not m:
+        run.ob(oid, "inconclusive", reason="solver: %s; not reproduced through a script call" % what, **common)
+        return
+    d = os.path.join(ws.VERIF, "replays", run.pid)
+    os.makedirs(d, exist_ok=True)
+    path = os.path.join(d, "mapping.json")
+    json.dump({"property": run.pid, "wrapper": r["name"], "n": r["n"], "k": r["k"], "src": r["src"], "observed": m.group(1), "kind": "mapping",
+               "how": "./check C20 --replay <this file>"}, open(path, "w"), indent=1)
+    run.violation("arity:host-parameter-fed-from-another-argument", "%s; natively: %s" % (what, m.group(1)[:300]), path)
+    run.ob(oid, "fail", note=m.group(1)[:200], **common)
+
+
 def check(pid, tier, seed):
     run = p_kani.check(pid, tier, seed, SPECS, plan(tier), FUNCS,
                        {"scalars": "full width of each type", "unwind": 6, "arity": "all register_fn wrapper closures in the MIR dump, argument count 64-bit"}, ASSUME, RULE, slots=4)
@@ -117,6 +170,20 @@ def check(pid, tier, seed):
 def replay(pid, path):
     import json
     payload = json.load(open(path))
+    if payload.get("kind") == "mapping":
+        import os, shutil, subprocess, re, ws
+        wsdir = ws.prepare("c20replay", [])
+        root = os.path.dirname(wsdir)
+        shutil.copy(os.path.join(ws.VERIF, "harness", "arity_replay.rs"), os.path.join(wsdir, "crates", "steel-core", "tests", "verif_arity_replay.rs"))
+        p = subprocess.run(["cargo", "test", "--offline", "-p", "steel-core", "--no-default-features", "--features", ws.FEATURES,
+                            "--test", "verif_arity_replay", "--target-dir", os.path.join(root, "tn"), "--", "mapping_replay", "--exact", "--nocapture"],
+                           cwd=wsdir, env=dict(os.environ, VERIF_MAP_N=str(payload["n"])), capture_output=True, text=True)
+        m = re.search(r"OBSERVED: (.*)", p.stdout + p.stderr)
+        print("observed:", m.group(1) if m else "not reproduced")
+        if m:
+            print("VIOLATION property=%s replay=%s" % (pid, path))
+            return 1
+        return 0
     if payload.get("kind") == "arity":
         import os, shutil, subprocess, re, ws
         wsdir = ws.prepare("c20replay", [])
